@@ -46,6 +46,13 @@ class SegT(StandIn):
     def box(self):
         return BoxT(self.overlap)
 
+    and_impl = None
+
+    def __and__(self, o):
+        if self.and_impl is None:
+            raise Undecided("segment & segment")
+        return self.and_impl(self, o)
+
     def __eq__(self, o):
         return isinstance(o, SegT) and (self is o or (self.same and o.same))
 
@@ -60,20 +67,36 @@ class SegT(StandIn):
 
 
 def run_and(ctx, fn, a, b, line_result=(), newton_result=()):
+    """newton_result: the true crossings as (parameter on a, parameter on b); the stand-in Newton search answers in the
+    order of the curves it is given, so a caller that swaps the curves gets swapped pairs back"""
+    def oriented(ca, cb):
+        if ca is b and cb is a and a is not b:
+            return [(v, u) for u, v in newton_result]
+        return list(newton_result)
+
     def hook(rn, ev, call, name, recv, args, kwargs):
         if name == "lines":
             return tuple(line_result)
         if name == "closed_linspace":
             return tuple(Fr(i, args[0] - 1) for i in range(args[0]))
         if name == "bezier_and_bezier":
-            return list(newton_result)
+            return oriented(args[0], args[1])
         if name == "filter_distance":
             # the corner pairs inserted by the caller are kept only when they are true crossings
-            return tuple(p for p in args[2] if p in newton_result)
+            return tuple(p for p in args[2] if p in oriented(args[0], args[1]))
         if name == "filter_parameters":
             return tuple(args[0])
         return NotImplemented
-    return Runner(ctx, set(), hook).call_fn(fn, [a, b])
+    rn = Runner(ctx, set(), hook)
+    depth = [0]
+
+    def again(x, y):          # `other & self` inside the method: the same method on the swapped operands
+        depth[0] += 1
+        if depth[0] > 3:
+            raise Undecided("unbounded recursion of PlanarCurve.__and__")
+        return rn.call_fn(fn, [x, y])
+    a.and_impl = b.and_impl = again
+    return rn.call_fn(fn, [a, b])
 
 
 def r14_1(ctx):
@@ -88,6 +111,12 @@ def r14_1(ctx):
         ("lines crossing", SegT("a", 1), SegT("b", 1), (Fr(1, 3), Fr(1, 4)), (), ((Fr(1, 3), Fr(1, 4)),)),
         ("curved, no crossing", SegT("a", 2), SegT("b", 1), (), (), None),
         ("curved, one crossing", SegT("a", 2), SegT("b", 2), (), ((Fr(1, 2), Fr(1, 5)),), ((Fr(1, 2), Fr(1, 5)),)),
+        # segments of different degree: the first parameter of every pair is the one on `self`
+        ("line & quadratic crossing", SegT("a", 1), SegT("b", 2), (), ((Fr(1, 2), Fr(1, 5)),), ((Fr(1, 2), Fr(1, 5)),)),
+        ("quadratic & line crossing", SegT("a", 2), SegT("b", 1), (), ((Fr(1, 2), Fr(1, 5)),), ((Fr(1, 2), Fr(1, 5)),)),
+        ("quadratic & cubic, two crossings", SegT("a", 2), SegT("b", 3), (), ((Fr(1, 4), Fr(2, 3)), (Fr(3, 4), Fr(1, 6))),
+         ((Fr(1, 4), Fr(2, 3)), (Fr(3, 4), Fr(1, 6)))),
+        ("cubic & quadratic crossing", SegT("a", 3), SegT("b", 2), (), ((Fr(1, 3), Fr(4, 5)),), ((Fr(1, 3), Fr(4, 5)),)),
     ]
     for label, a, b, lr, nr, want in cases:
         try:
@@ -100,13 +129,14 @@ def r14_1(ctx):
         elif want == ():
             ok = got is not None and len(got) == 0
         else:
-            ok = got is not None and tuple(got) == want
+            ok = got is not None and sorted(tuple(got)) == sorted(want)
         if ok:
             out.ok(fn.qname, f"{label} -> {'None' if want is None else 'empty tuple' if want == () else 'pairs'}", where=fn.where())
         else:
             cls = "None" if got is None else "an empty tuple" if len(got) == 0 else f"{got!r}"
             out.bad(fn.qname, f"{label}: returns {cls}", where=fn.where(),
-                    detail="the empty tuple is the marker for identical segments; 'no crossing' must be None")
+                    detail="the empty tuple is the marker for identical segments; 'no crossing' must be None" if not want
+                    else f"required {want!r}: (parameter on self, parameter on other)")
     # the reader
     fr = ctx.fn("jordancurve.JordanCurve.__intersection")
     res = run_reader(ctx, fr)
